@@ -412,7 +412,7 @@ var pairs = []pair{
 	{"P7", &P7{}, &P7v2{}, nil},
 	{"P8", &P8{}, &P8v2{}, []interface{}{&P8Tag{}}},
 	{"P9", &P9{}, &P9v2{}, nil},
-	{"P10", &P10Emp{}, &P10Empv2{}, []interface{}{&P10Co{}, &P10Dept{}, &P10Badge{}, &P10Task{}, &P10Note{}}},
+	{"P10", &P10Emp{}, &P10Empv2{}, []interface{}{&P10Co{}, &P10Dept{}, &P10Lang{}}},
 }
 
 type RoundIn struct {
@@ -812,7 +812,7 @@ type ReorderObs struct {
 	Deps  map[string][]string `json:"deps"`
 }
 
-var reorderTypes = map[string]interface{}{"RA": &RA{}, "RB": &RB{}, "RC": &RC{}, "RD": &RD{}, "Owner": &Owner{}, "P6": &P6{}, "P1": &P1{}}
+var reorderTypes = map[string]interface{}{"RA": &RA{}, "RB": &RB{}, "RC": &RC{}, "RD": &RD{}, "Owner": &Owner{}, "P6": &P6{}, "P1": &P1{}, "P10Emp": &P10Emp{}, "P10Badge": &P10Badge{}}
 
 func runReorder(in ReorderIn) ReorderObs {
 	st := &recState{aliases: map[string][]string{}}
@@ -994,7 +994,11 @@ func main() {
 		k := r.Range(1, 4)
 		ms := append([]string{}, names...)
 		lib.Shuffle(r, ms)
-		addReorder("main", ReorderIn{Models: ms[:k]})
+		sel := append([]string{}, ms[:k]...)
+		if r.Chance(1, 4) {
+			sel = append(sel, sel[0]) // the same model twice
+		}
+		addReorder("main", ReorderIn{Models: sel})
 	}
 	budget := 1500
 	if a.Tier == "thorough" {
